@@ -195,4 +195,32 @@ example : ∃ s, run init [.connect, .sendBegin 7, .write, .sendReturn, .connect
     .readerDecode 1, .readerRemove 1, .readerDeliver 1] = some s ∧ s.status 0 = .got ⟨7, 3⟩ := by
   refine ⟨_, rfl, ?_⟩; decide
 
+/-- **end to end with several connections.** Each connection `c` of one client object may be served by a server loop of its own
+(`frames c`, `answers c`, its own segmentations in both directions). In any polite run of the client in which the peers emitted
+what those streams carry, once every reader has nothing left to process, every answer any of the handlers gave - on whichever
+connection - sits in the future of the request with that answer's hop-by-hop id. -/
+theorem C11_multi_end_to_end (cfg : Dia.Cfg) (hf : cfg.tables.Fit) (dict : Dia.Lookup) (conns : List Nat)
+    (frames : Nat → List Dia.Bytes) (reqs answers : Nat → List Dia.Msg) (evs : Nat → List Dia.REv) (w : Nat → List Dia.WEv)
+    (evsC : Nat → List Dia.REv) (more : Nat → Dia.Bytes)
+    (hl1 : ∀ c ∈ conns, (frames c).length = (reqs c).length) (hl2 : ∀ c ∈ conns, (answers c).length = (reqs c).length)
+    (hacc : ∀ c ∈ conns, ∀ i (h1 : i < (frames c).length) (h2 : i < (reqs c).length),
+      Dia.Accepts cfg dict (frames c)[i] (reqs c)[i])
+    (hans : ∀ c ∈ conns, ∀ a ∈ answers c, a.Good ∧ a.HeaderOk cfg.tables ∧ Dia.TypedList dict a.avps ∧ a.length ≤ 1048576 ∧
+      Dia.depthList a.avps ≤ cfg.limit)
+    (hne : ∀ c ∈ conns, Dia.noEmpty (evs c)) (hflat : ∀ c ∈ conns, Dia.flat (evs c) = (frames c).flatten)
+    (hw : ∀ c ∈ conns, Dia.neverFails (w c)) (hneC : ∀ c ∈ conns, Dia.noEmpty (evsC c))
+    (hflatC : ∀ c ∈ conns, Dia.flat (evsC c) = (Dia.serve cfg dict ((answers c).map .ok) (evs c) (w c)).written ++ more c)
+    (ls : List Label) (s : St) (hs : Hist) (hp : politeRun init {} ls) (h : runP init {} ls = some (s, hs))
+    (hemit : ∀ c ∈ conns, ∀ m, Cl.Item.msg m ∈ Dia.itemsOf cfg dict (answers c).length (evsC c) → m ∈ s.emitted)
+    (hwire : ∀ c, s.wire c = []) (hr : ∀ c, s.reader c = .running) :
+    ∀ c ∈ conns, ∀ a ∈ answers c,
+      ∃ wt, wt < s.nW ∧ s.hbhOf wt = a.hbh.toNat ∧ s.status wt = .got ⟨a.hbh.toNat, a.e2e.toNat⟩ := by
+  intro c hc a ha
+  have hitems := (Cl.C11_server_to_client cfg hf dict (frames c) (reqs c) (answers c) (evs c) (w c) (evsC c) (more c)
+    (hl1 c hc) (hl2 c hc) (hacc c hc) (hans c hc) (hne c hc) (hflat c hc) (hw c hc) (hneC c hc) (hflatC c hc)).2
+  have hmem : Cl.Item.msg ⟨a.hbh.toNat, a.e2e.toNat⟩ ∈ Dia.itemsOf cfg dict (answers c).length (evsC c) := by
+    rw [hitems]
+    exact List.mem_map.mpr ⟨a, ha, rfl⟩
+  exact C11_multi_delivery ls s hs hp h hwire hr ⟨a.hbh.toNat, a.e2e.toNat⟩ (hemit c hc _ hmem)
+
 end Dia.Cm
